@@ -110,6 +110,32 @@ def lean_files_for(modules):
     return [LEAN / (m.replace('.', '/') + '.lean') for m in seen]
 
 
+_DECL = re.compile(r'^(?:@\[[^\]]*\]\s*)?(?:(?:private|protected|noncomputable|partial|unsafe)\s+)*'
+                   r'(def|structure|inductive|abbrev|class|instance|theorem|lemma|example|namespace|end|section|open|'
+                   r'variable|universe|set_option|attribute|macro|syntax|notation|infix|infixl|infixr|prefix|postfix|import|'
+                   r'deriving|mutual|termination_by|decreasing_by)\b')
+
+
+def definitions_hash(modules) -> str:
+    """Hash of every definition (def / structure / inductive / abbrev / class / instance / notation, their full text,
+    comments and blank lines removed) in the property modules and everything of ours they import.  Theorems are
+    recorded by statement in the lock; this covers what the statements are stated OVER, so that replacing the body
+    of a predicate (say by `True`) cannot go unnoticed."""
+    h = hashlib.sha256()
+    for f in sorted(lean_files_for(modules)):
+        keep, cur = [], None
+        for line in strip_comments(f.read_text()).splitlines():
+            m = _DECL.match(line)
+            if m:
+                kind = m.group(1)
+                cur = kind if kind in ('def', 'structure', 'inductive', 'abbrev', 'class', 'instance', 'notation', 'infix',
+                                       'infixl', 'infixr', 'prefix', 'postfix', 'macro', 'syntax', 'mutual') else None
+            if cur is not None and line.strip():
+                keep.append(re.sub(r'\s+', ' ', line.strip()))
+        h.update(str(f.relative_to(LEAN)).encode()); h.update('\n'.join(keep).encode())
+    return h.hexdigest()[:20]
+
+
 def lean_obligations(pid: str, modules: list, tier: str, log) -> dict:
     """Build the property modules, audit their theorems.  Returns a dict with
     obligations, discharged, theorems{name: axioms|None}, problems[list of str]."""
@@ -192,8 +218,13 @@ def lean_obligations(pid: str, modules: list, tier: str, log) -> dict:
             res['problems'].append('audit file failed: ' + out[-500:])
         # the lock: names and statements recorded when the theorems were last reviewed (tools/lock_theorems.py).  A
         # theorem that disappeared, or whose statement changed, is a broken obligation even if everything still builds.
+        res['definitions_hash'] = definitions_hash(modules)
         if LOCK.exists():
-            lock = json.loads(LOCK.read_text()).get(pid, {})
+            lock = dict(json.loads(LOCK.read_text()).get(pid, {}))
+            dh = lock.pop('__definitions__', None)
+            if dh is not None and dh != res['definitions_hash']:
+                res['problems'].append('the definitions the theorems are stated over (Model/Lemmas/Props of this property) '
+                                       'differ from the ones recorded in lean/theorems.lock.json')
             for n, h in lock.items():
                 if n not in res['statements']:
                     res['problems'].append(f'theorem {n} is recorded in lean/theorems.lock.json but is no longer proved')
